@@ -72,6 +72,12 @@ def applyOp (s : St) : String → Option St
   | "Rign" => step s .respIgnored
   | "Rerr" => step s .respErr
   | "Rlie" => step s .respErr
+  | "Rbad" =>
+    -- a publish response with an unhandled bad ServiceResult: publish() fails (after
+    -- handing the error to detached per-subscription goroutines) and the same status
+    -- reaches Client.monitor, which starts a reconnect round
+    let s1 := (step s .respErr).getD s
+    some { s1 with monPause := s1.monPause + 1 }
   | "X" =>
     let s1 := (step s .respErr).getD s
     some { s1 with monPause := s1.monPause + 1 }
